@@ -388,3 +388,22 @@ Theorem C09_resume_first_header_over_limit_example :
   tot_resume dec_header_canon probe_wopts [] probe_file = TErr EHeaderTooLarge.
 Proof. exact resume_probe_over_limit. Qed.
 Print Assumptions C09_resume_first_header_over_limit_example.
+
+(* ---- (11) the end of the stream is terminal: an iterator called again after io.EOF answers io.EOF again ---- *)
+(* (the harness calls every iterator twice more after its first terminal result; RunTotal.model_again predicts
+   those calls after a clean EOF, incl. the ZeroLengthSectionAsEOF case where the stream is NOT exhausted) *)
+Theorem C09_end_of_stream_is_terminal :
+  forall hok o,
+    next_block hok o [] = Err EEof /\
+    next_block_root hok [] = Err EEof /\
+    (forall k, again_next hok k o [] = repeat tag_eof k) /\
+    (forall st, BlockReaderPos.vis st = [] ->
+       BlockReaderPos.brp_next hok o st = Err EEof /\ BlockReaderPos.brp_skip o st = Err EEof /\
+       BlockReaderPos.end_state EEof st = st) /\
+    (forall w st, BlockReaderPos.vis st = [] -> w <> [] ->
+       BlockReaderPos.brp_walk hok o w st = ([], (Some EEof, st))).
+Proof.
+  exact (fun hok o => conj (next_block_at_end hok o) (conj (next_block_root_at_end hok)
+          (conj (again_next_at_end hok o) (conj (brp_at_end hok o) (brp_walk_at_end hok o))))).
+Qed.
+Print Assumptions C09_end_of_stream_is_terminal.
